@@ -126,7 +126,7 @@ OTHER_ATTRS = ["id", "title", "style", "data-x", "loading"]
 
 def gen_fragment(R):
     """An HTML fragment that is never 'all img / all div.admonition' (pass-through expected in every configuration)."""
-    k = R.randrange(12)
+    k = R.randrange(19)
     v = R.choice(VALUES).replace('"', "&quot;").replace("\t", " ")
     if k == 0:
         return f'<div class="box" data-v="{v}">\ninner <b>bold</b> *not md*\n</div>', "block"
@@ -150,7 +150,22 @@ def gen_fragment(R):
         return 'text <img src="in.png" alt="A"> and <b>b</b> after', "inline"
     if k == 10:
         return '<div class="admonition-like">\n<img src="x.png">\n</div>', "block"
-    return '<p>unclosed <i>tags\n<img src="y.png">', "block"
+    if k == 11:
+        return '<p>unclosed <i>tags\n<img src="y.png">', "block"
+    # blocks that stop in the middle of a construct (the block ends at the blank line / the end of the input)
+    if k == 12:
+        return f'<div class="outer" data-v="{v}"', "block"
+    if k == 13:
+        return "<div>a</div", "block"
+    if k == 14:
+        return '<img src="cut.png" alt="never closed', "block"
+    if k == 15:
+        return "<div>\ntext &" + R.choice(["A", "amp", "#3", "#x2"]), "block"
+    if k == 16:
+        return "<section>\ntext <", "block"
+    if k == 17:
+        return '<div class="admonition"\ntitle="cut', "block"
+    return R.choice(["<!-- never closed " + v.replace("--", "- -"), "<?php never closed", "<![CDATA[ never closed", "<!DOCTYPE never closed"]), "block"
 
 
 def in_container(R, lines, kind):
